@@ -6,13 +6,22 @@ from ofxtools import Types
 from ofxtools.Types import OFXSpecError, OFXTypeWarning
 
 
+TEXT_POOL = ["", "Y", "N", "y", "1", "12", "-7", "+3", "007", "1_0", " 1", "abc", "AT&T", "&lt;", "a&amp;b", "&nbsp;", "x" * 40,
+             "é€", "<", "&", "&amp;lt;", "&amp;amp;", "x&amp;nbsp;y", "&amp;quot;", "&lt;&amp;gt;", "1.5", "1,5", "TYPE1", "NONE", "١٢", "1e3", "--1", "-", "+",
+             # numbers no binary float can hold, limits of digit counts, texts a lenient number parser would take
+             "9007199254740993", "-9007199254740993", "12345678901234567890", "999999999999999999", "1000000000000000000", "100.00", "1e16", "0x10", "1 000",
+             "ab  cd", "a\tb", "x" * 32, "x" * 33, "a b ", " a"]
+
+
 def text_sampler(rng):
-    pool = ["", "Y", "N", "y", "1", "12", "-7", "+3", "007", "1_0", " 1", "abc", "AT&T", "&lt;", "a&amp;b", "&nbsp;", "x" * 40,
-            "é€", "<", "&", "&amp;lt;", "&amp;amp;", "x&amp;nbsp;y", "&amp;quot;", "&lt;&amp;gt;", "1.5", "1,5", "TYPE1", "NONE", "١٢", "1e3", "--1", "-", "+"]
+    pool = TEXT_POOL
     if rng.random() < 0.7:
         return rng.choice(pool)
     alpha = "aZ09 &<>;\"'é€lt_+-."
     return "".join(rng.choice(alpha) for _ in range(rng.randint(1, 9)))
+
+
+text_sampler.pool = TEXT_POOL
 
 
 def T(name="value", nonempty=False):
@@ -225,6 +234,14 @@ class AggArg(Arg):
         return [self.make_real()]
 
 
+def _outcome(it, obj, meth_, value):
+    """(kind, value-or-exception-class) of obj.<meth_>(value), natively"""
+    try:
+        return ("ok", getattr(obj, meth_)(value))
+    except Exception as ex:
+        return ("raised", type(ex).__name__)
+
+
 def subagg(cls, T_):
     def build(**kw):
         return cls(T_, required=kw.get("required", False))
@@ -247,6 +264,21 @@ CONTRACTS += [
              ensures=[("delegates", "result == spec.ofxtypes.via(self.converter, 'unconvert', value)")],
              raises=[(OFXSpecError, "len(value) > 32", "must")],
              props=["C10", "C11"]),
+    # ListElement is a pure delegate: whatever the wrapped converter does with a value - None included, whether the
+    # wrapped converter is required or not, whatever its type - is what the list element does
+] + [
+    Contract(f"ofxtools.Types:ListElement.{meth_}",
+             args=[InstArg("self", Types.ListElement, {"converter": inner, "required": False}, (lambda inner_: lambda **kw: Types.ListElement(inner_))(inner)),
+                   OneOfArg("value", vals)],
+             call=(lambda m_: lambda it, fn, a: (lambda r: r)(_outcome(it, a[0], m_, a[1])))(meth_),
+             ensures=[("same-outcome-as-the-wrapped-converter", "result == spec.ofxtypes.outcome_of(self.converter, " + repr(meth_) + ", value)")],
+             notes=f"ListElement({type(inner).__name__}(required={inner.required})).{meth_} over None and typical / refused values", native_only=True, samples=40,
+             props=["C10", "C04"])
+    for inner, vals in ((Types.String(4, required=True), [None, "", "abcd", "abcde", 3]), (Types.String(4), [None, "ab", "abcde"]),
+                        (Types.Integer(4, required=True), [None, "12", "-2024", 2024, -2024, 20240, "x"]), (Types.Integer(4), [None, 7, -99999]),
+                        (Types.OneOf("A", "B", required=True), [None, "A", "C"]), (Types.Bool(required=True), [None, "Y", True, "Q"]))
+    for meth_ in ("convert", "unconvert")
+] + [
     # ------------------------------------------------------------------ SubAggregate / ListAggregate  29..32
     Contract("ofxtools.Types:SubAggregate.convert",
              args=[subagg(Types.SubAggregate, LEDGERBAL), AggArg("value", LEDGERBAL, lambda: _agg_samples()[0])], call=meth("convert"),
